@@ -170,6 +170,10 @@ class IsoOutHarness(Harness):
                      ("invalid", host.ev_invalid), ("tracked", tracked), ("T_len", T_len), ("T_done", T_done),
                      ("T_elig", T_elig), ("T_must", T_must), ("exp_i", exp_i), ("occ_ub", occ_ub),
                      ("occ_tok", occ_tok), ("prev_last", prev_last)):
+            if not isinstance(s, Signal):
+                w = Signal(len(s), name="o_" + n)
+                m.d.comb += w.eq(s)
+                s = w
             self.obs(n, s)
         return m
 
